@@ -114,4 +114,43 @@ theorem skel_appDirector_GetRedirect_ok : skel_appDirector_GetRedirect = ([
   "return redirect, nil",
   "return \"/\", nil"] : List String) := rfl
 
+theorem skel_decodeState_ok : skel_decodeState = ([
+  "if encode",
+  "base64.RawURLEncoding.DecodeString",
+  "if len(parsedState) != 2",
+  "return \"\", \"\", errors.New(\"invalid length\")",
+  "errors.New",
+  "return parsedState[0], parsedState[1], nil"] : List String) := rfl
+
+theorem skel_IsEndpointAllowed_ok : skel_IsEndpointAllowed = ([
+  "SplitHostPort",
+  "if allowedHost == \"\"",
+  "if isHostnameAllowed(hostname, allowedHost)",
+  "if allowedPort == \"*\" || allowedPort == redirectPort || (allowedPort == \"\" && redirectPort == \"\")",
+  "return true",
+  "return false"] : List String) := rfl
+
+theorem skel_isHostnameAllowed_ok : skel_isHostnameAllowed = ([
+  "if hostname == strings.TrimPrefix(allowedHost, \".\") || hostname == strings.TrimPrefix(allowedHost, \"*.\")",
+  "return true",
+  "if (strings.HasPrefix(allowedHost, \".\") && strings.HasSuffix(hostname, allowedHost)) || (strings.HasPrefix(allowedHost, \"*.\") && strings.HasSuffix(hostname, allowedHost[1:]))",
+  "strings.HasPrefix",
+  "strings.HasSuffix",
+  "strings.HasPrefix",
+  "strings.HasSuffix",
+  "return true",
+  "return false"] : List String) := rfl
+
+theorem skel_appDirector_hasProxyPrefix_ok : skel_appDirector_hasProxyPrefix = ([
+  "return strings.HasPrefix(path, a.proxyPrefix)",
+  "strings.HasPrefix"] : List String) := rfl
+
+theorem skel_appDirector_validateRedirect_ok : skel_appDirector_validateRedirect = ([
+  "if a.validator.IsValidRedirect(redirect)",
+  "a.validator.IsValidRedirect",
+  "return redirect",
+  "if redirect != \"\"",
+  "logger.Errorf",
+  "return \"\""] : List String) := rfl
+
 end O2P.Expect.C06
